@@ -557,6 +557,7 @@ def main(tier, seed):
         ("same_name_two_libraries", {"": "from library import m\nfrom library import n\nm.show()\nn.show()\n",
                                      "m": "@constexpr\ndef scale(x):\n    return x * 10\ndef show():\n    d5.Setting = scale(3)\n",
                                      "n": "@constexpr\ndef scale(x):\n    return x - 1\ndef show():\n    d4.Setting = scale(3)\n"}, "s d5 Setting 30\ns d4 Setting 2"),
+        ("pow_is_the_builtin", "@constexpr\ndef f(a):\n    return pow(3, a) + pow(7, 5, 13)\nd5.Setting = f(40)\n", "__VALUE__%d" % (3 ** 40 + pow(7, 5, 13))),
         ("evaluated_once", "@constexpr\ndef cnt(x, acc=[]):\n    acc.append(x)\n    return len(acc)\nd5.Setting = cnt(5)\n", "s d5 Setting 1"),
         ("unused_constexpr_emits_nothing", "@constexpr\ndef f(a):\n    return a\nd5.Setting = 1\n", "s d5 Setting 1"),
         ("hash_is_signed_crc", "@constexpr\ndef f(a):\n    return HASH(a)\nd5.Setting = f('StructureWallLight')\n", f"s d5 Setting {ic10.signed_crc('StructureWallLight')}"),
@@ -571,7 +572,12 @@ def main(tier, seed):
         if e is not None and "Timeout during evaluating constexpr" in e:
             run.count("inconclusive_constexpr_timeouts")
             continue
-        if want is not None:
+        if want is not None and want.startswith("__VALUE__"):
+            # the single literal must read back as this integer (its spelling is another property's business)
+            mm = re.search(r"^s d5 Setting (\S+)$", code_of(r).strip()) if e is None else None
+            if mm is None or ic10.literal_value(mm.group(1)) != int(want[9:]):
+                run.violation(f"regression program {name}: unexpected result", {"kind": "fixed", "name": name, "source": src, "expected_value": want[9:], "result": e or code_of(r)})
+        elif want is not None:
             if e is not None or "\n".join(l.strip() for l in code_of(r).strip().split("\n")) != want:
                 run.violation(f"regression program {name}: unexpected result", {"kind": "fixed", "name": name, "source": src, "expected": want, "result": e or code_of(r)})
         else:
